@@ -454,8 +454,8 @@ class Function:
                         try:
                             await ast_ctx.call_func(callback, None, *args, **kwargs)
                         except Exception as e:
+                            # log it and carry on with the remaining done callbacks
                             ast_ctx.log_exception(e)
-                            break
             finally:
                 #
                 # always forget the task, even if a done callback is cancelled while it awaits
